@@ -1,8 +1,41 @@
 """C16 — qtools multiplier output types represent every product (DESIGN.md §4 C16)."""
 import itertools
+import json
+from fractions import Fraction as F
+
 import numpy as np
 
 from .. import core, qtypes
+
+NP_FLOAT = {16: np.float16, 32: np.float32, 64: np.float64}
+
+
+def float_samples(bits):
+  """exactly representable values of the IEEE type of that width, aimed at its edges: precision (1 ± ulp,
+  odd significands), range (max, max/4, 2^emax), underflow (smallest normal and subnormal)"""
+  t = NP_FLOAT[bits]
+  fi = np.finfo(t)
+  with np.errstate(all="ignore"):
+    vals = [t(0), t(1), t(-1), t(2), t(0.5), t(3), t(-0.375), t(1) + fi.eps, t(1) - fi.epsneg, t(np.pi),
+            -t(np.e), fi.max, -fi.max, fi.max / t(4), t(2) ** t(fi.maxexp - 1), fi.tiny, fi.tiny * t(4),
+            fi.smallest_subnormal, -fi.smallest_subnormal * t(3), t(1) / t(3), t(1000.0) + t(0.5)]
+  return sorted({F(float(v)) for v in vals if np.isfinite(v)})
+
+
+def in_float(v, bits):
+  """is the exact rational `v` a finite value of the IEEE type of that width (numpy cast round trip)"""
+  t = NP_FLOAT[bits]
+  try:
+    d = float(v)                       # nearest double; an inexact step makes the comparison below fail
+  except OverflowError:
+    return False
+  with np.errstate(all="ignore"):
+    r = t(d)
+  return bool(np.isfinite(r)) and F(float(r)) == v
+
+
+PARTNER_CANDIDATES = [F(0), F(1), F(-1), F(2), F(-2), F(1, 2), F(-1, 2), F(1, 4), F(4), F(3), F(-3), F(3, 4),
+                      F(5, 8), F(7), F(-8), F(1, 16), F(16), F(255), F(1, 256), F(-128), F(127, 128)]
 
 
 def conv_case(label, q):
@@ -39,7 +72,15 @@ def run(run: core.Run, tier: str):
       "operand types = every qtools mode built by the real QuantizerFactory from a grid of qkeras "
       "quantizers (bits, int_bits extremes, signedness, po2 max values); all ordered pairs of a "
       "seeded sample; non-trivial = distinct (weight type, input type) pair; brute force = every "
-      "value pair of types up to 5 bits judged by the Lean Val predicate on the REAL output type")
+      "value pair of types up to 5 bits judged by the Lean Val predicate on the REAL output type; "
+      "floating-point cells: all ordered pairs of {fp16, fp32, None -> default_interm_quantizer, "
+      "FloatingPoint(bits=16/32/64)} with each other and with 28 non-float partners of every mode (also "
+      "fixed-point types wider than the float widths) in both positions, judged by the clauses "
+      "float_output_type (floating-point record of the largest floating operand width) and float_product "
+      "(IEEE value sets by numpy cast round trip, edge values of each width)")
+  run.assumptions.append(
+      "value set of a floating-point type of width 16/32/64 = finite values of the IEEE-754 interchange "
+      "format of that width (numpy float16/32/64); other widths carry no value claim, only the width rule")
 
   # ---- static tie 1: conversion qkeras quantizer -> qtools record
   types = qtypes.qkeras_types(tier, rng)
@@ -147,3 +188,131 @@ def run(run: core.Run, tier: str):
   run.extra["brute_force_type_pairs"] = len(brute_lines)
   run.extra["brute_force_value_pairs"] = n_pairs
   run.evaluations += len(brute_lines)
+
+
+  # ---- floating-point cells: the clause C16_float judged on the REAL output type ------------------------
+  # (the brute-force oracle above has no value set for a float type and skips every pair with one)
+  float_cells(run, qf, mf)
+
+
+def float_cells(run, qf, mf):
+  """every ordered pair with a floating-point operand: float x float over all widths and construction
+  routes, float x {fixed narrow/wide, po2, ternary, binary +-1, binary 0/1} in both positions.
+  Clauses (independent of the Lean model, exact rationals):
+    float_output_type : the reported output is a floating-point record (mode 5, is_floating_point,
+                        signed) whose width is the LARGEST width among the floating-point operands;
+    float_product     : every product a*b of a value of the weight type and a value of the input type
+                        that the widest floating-point operand type can hold is a value of the reported
+                        output type (IEEE value sets, membership by numpy cast round trip)."""
+  fl = qtypes.float_operands()
+  pa = qtypes.float_partner_operands()
+  ops = []
+  for label, arg in fl + pa:
+    ops.append((label, arg, label in [l for l, _ in fl]))
+  pairs = []
+  for (lw, aw, fw), (lx, ax, fx) in itertools.product(ops, ops):
+    if fw or fx:
+      pairs.append((lw, aw, lx, ax))
+  built = []
+  for lw, aw, lx, ax in pairs:
+    w, x = qf.make_quantizer(aw), qf.make_quantizer(ax)
+    m = mf.make_multiplier(w, x)
+    built.append((lw, lx, w, x, m))
+  # model comparison of the same pairs (the records of the operands as the real factory built them)
+  lines = [{"op": "mul", "w": qtypes.to_rec(w), "x": qtypes.to_rec(x)} for _, _, w, x, _ in built]
+  outs = core.run_driver("C16", lines)
+  # values of the non-float partners: candidates filtered by the type's value predicate
+  part_recs = {}
+  for _, _, w, x, _ in built:
+    for q in (w, x):
+      if not q.is_floating_point:
+        part_recs[json.dumps(qtypes.to_rec(q), sort_keys=True)] = qtypes.to_rec(q)
+  keys = sorted(part_recs)
+  mem = core.run_driver("C16", [{"op": "member", "q": part_recs[k],
+                                 "vals": [core.rj(v) for v in PARTNER_CANDIDATES]} for k in keys])
+  part_vals = {k: [v for v, ok in zip(PARTNER_CANDIDATES, o["in"]) if ok] for k, o in zip(keys, mem)}
+
+  def values(q):
+    if q.is_floating_point:
+      vs = float_samples(int(q.bits)) if int(q.bits) in NP_FLOAT else []
+    else:
+      vs = part_vals[json.dumps(qtypes.to_rec(q), sort_keys=True)]
+    # unit factors first: the first failing product reported is then of the form (+-1) * b or a * (+-1)
+    # whenever one exists, i.e. the output type does not even hold the operand's own values
+    return sorted(vs, key=lambda v: (abs(v) != 1, abs(v), v))
+
+  probe = {16: set(), 32: set(), 64: set()}
+  n_products = 0
+  for (lw, lx, w, x, m), line, o in zip(built, lines, outs):
+    out = m.output
+    ro = qtypes.to_rec(out)
+    kind = m.implemented_as()
+    fbits = [int(q.bits) for q in (w, x) if q.is_floating_point]
+    want = max(fbits)
+    rel = ("both_w_narrower" if len(fbits) == 2 and int(w.bits) < int(x.bits) else
+           "both_w_wider" if len(fbits) == 2 and int(w.bits) > int(x.bits) else
+           "both_equal" if len(fbits) == 2 else
+           "weight_only" if w.is_floating_point else "input_only")
+    other = [q for q in (w, x) if not q.is_floating_point]
+    wide_partner = bool(other) and int(other[0].bits) > want
+    run.case(("float_cell", lw, lx), sample=None)
+    run.compared += 1
+    run.count("float_cell_" + rel + ("_partner_wider_than_float" if wide_partner else ""))
+    run.count("cell_%d_%d" % (int(w.mode), int(x.mode)))
+    mirrored = True
+    if "err" in o or qtypes.rec_eq(ro, o["out"]) or o["impl"] != kind:
+      mirrored = False
+      run.disagree("make_multiplier", {"w": lw, "x": lx, "w_rec": line["w"], "x_rec": line["x"]},
+                   {"impl": kind, "out": ro}, o)
+    if "err" not in o and kind != o["spec_impl"]:
+      run.violate("impl_kind", {"cell": [int(w.mode), int(x.mode)]},
+                  {"w": lw, "x": lx, "implemented_as": kind, "expected": o["spec_impl"]}, mirrored=mirrored)
+    key = {"cell": "float", "operands": rel, "w_mode": int(w.mode), "x_mode": int(x.mode),
+           "partner_wider_than_float": wide_partner}
+    replay = ("MultiplierFactory().make_multiplier(QuantizerFactory().make_quantizer(%s), "
+              "QuantizerFactory().make_quantizer(%s)).output" % (lw, lx))
+    ok_type = (bool(out.is_floating_point) and int(out.mode) == 5 and out.bits is not None and
+               int(out.bits) == want and bool(out.is_signed) and str(out.name) == "floating_point")
+    if not ok_type:
+      run.violate("float_output_type", key,
+                  {"w": lw, "x": lx, "w_bits": int(w.bits), "x_bits": int(x.bits),
+                   "floating_point_operand_widths": fbits, "expected_output_bits": want, "out": ro,
+                   "implemented_as": kind, "replay": replay}, mirrored=mirrored)
+    # value level: products the widest floating operand type holds must be values of the output type
+    ob = int(out.bits) if (out.bits is not None and bool(out.is_floating_point)) else None
+    if want in NP_FLOAT and ob in NP_FLOAT:
+      bad = None
+      for a in values(w):
+        for b in values(x):
+          pr = a * b
+          n_products += 1
+          if len(probe[want]) < 4000:
+            probe[want].add(pr)
+          if in_float(pr, want) and not in_float(pr, ob):
+            bad = (a, b, pr)
+            break
+        if bad:
+          break
+      if bad:
+        a, b, pr = bad
+        run.violate("float_product", key,
+                    {"w": lw, "x": lx, "out": ro, "a": str(a), "b": str(b), "product": str(pr),
+                     "a_float": float(a), "b_float": float(b),
+                     "product_is_a_value_of_float%d" % want: True,
+                     "product_is_a_value_of_reported_float%d" % ob: False, "replay": replay},
+                    mirrored=mirrored)
+  run.extra["float_cells"] = {"pairs": len(built), "products_judged": n_products,
+                              "float_routes": [l for l, _ in fl], "partners": [l for l, _ in pa]}
+  run.evaluations += n_products
+  # tie of the value-set model (Props.C16 ValFloat) to real IEEE types: Lean membership vs numpy casts
+  fl_lines, fl_meta = [], []
+  for bits in (16, 32, 64):
+    vs = sorted(probe[bits] | {v for b2 in (16, 32, 64) for v in float_samples(b2)})
+    fl_lines.append({"op": "floatval", "bits": bits, "vals": [core.rj(v) for v in vs]})
+    fl_meta.append((bits, vs))
+  for (bits, vs), o in zip(fl_meta, core.run_driver("C16", fl_lines)):
+    for v, mdl in zip(vs, o["in"]):
+      run.compared += 1
+      if bool(mdl) != in_float(v, bits):
+        run.disagree("float_value_set", {"bits": bits, "value": str(v)}, in_float(v, bits), bool(mdl))
+    run.count("float_value_set_probes_fp%d" % bits, len(vs))
